@@ -60,3 +60,23 @@ Fixpoint win_layout (mem : Z -> option Z) (in_stack : Z -> bool) (lookup : Z -> 
       (ctx = true -> w_thing i = AllocatesBasePointer false -> ra <> eip) /\
       win_layout mem in_stack lookup false (psz ps) ra (esp + F + 4) rest
   end.
+
+(* ---- all three kinds of record in one stack: FPO without / with base pointer, frame data with the .raSearch program.
+   An activation names the ebp its caller resumes with (Walker.v: act_bp, fpo_chain_bp). ---- *)
+Fixpoint win_layout_bp (mem : Z -> option Z) (in_stack : Z -> bool) (lookup : Z -> option (win_info * option Z))
+                       (ctx : bool) (gcps eip esp ebp : Z) (acts : list act_bp) : Prop :=
+  match acts with
+  | [] => True
+  | (i, ps, ra, bp') :: rest =>
+      let F := w_locals i + w_saved i + gcps in
+      lookup eip = Some (i, ps) /\ (ctx = false -> in_stack esp = true) /\
+      win_frame_size i gcps = Some F /\ 0 <= w_locals i /\ 0 <= w_saved i /\ 0 <= gcps /\
+      mem (esp + F) = Some ra /\ 4096 <= ra < 2 ^ 32 /\ esp + F + 4 < 2 ^ 32 /\
+      match w_thing i with
+      | AllocatesBasePointer true =>
+          (ctx = true -> ra <> eip) /\ 0 <= esp + gcps + w_saved i - 8 /\ mem (esp + gcps + w_saved i - 8) = Some bp'
+      | AllocatesBasePointer false => (ctx = true -> ra <> eip) /\ bp' = ebp
+      | ProgramString e => e = prog_ra_search_b /\ bp' = ebp /\ 0 <= ebp
+      end /\ bp' < 2 ^ 32 /\
+      win_layout_bp mem in_stack lookup false (psz ps) ra (esp + F + 4) bp' rest
+  end.
